@@ -502,6 +502,12 @@ pub fn mutate_block(b: &mut schema::Block, m: &BlockMut, previous_symbols: &[Str
             let terms = edge_terms();
             // integer operands more often than the rest: arithmetic has the most edges
             let pick = |rng: &mut Rng| if rng.chance(1, 2) { terms[rng.below(10)].clone() } else { rng.pick(&terms).clone() };
+            // the same values as plain facts `time(v)` (default symbol 5), for the typed
+            // extraction of query results
+            for _ in 0..4 {
+                let t = rng.pick(&terms).clone();
+                b.facts_v2.push(fact(pred(5, vec![t])));
+            }
             for _ in 0..24 {
                 let (a, c) = (pick(&mut rng), pick(&mut rng));
                 let kind = rng.below(28) as i32;
@@ -599,6 +605,23 @@ fn sweep_authorizer(cx: &mut Ctx, a: &mut Authorizer, depth: u32) {
     });
     cx.guard("Authorizer::query_all", || {
         let r: Result<Vec<biscuit_auth::builder::Fact>, _> = a.query_all("data($x, $y) <- right($x, $y) trusting previous");
+        r.is_ok()
+    });
+    // typed extraction of query results: every conversion answers or refuses
+    cx.guard("Authorizer::query::<(SystemTime,)>", || {
+        let r: Result<Vec<(std::time::SystemTime,)>, _> = a.query_all("data($t) <- time($t)");
+        r.is_ok()
+    });
+    cx.guard("Authorizer::query::<(i64,)>", || {
+        let r: Result<Vec<(i64,)>, _> = a.query_all("data($t) <- time($t)");
+        r.is_ok()
+    });
+    cx.guard("Authorizer::query::<(String,)>", || {
+        let r: Result<Vec<(String,)>, _> = a.query_all("data($t) <- time($t)");
+        r.is_ok()
+    });
+    cx.guard("Authorizer::query::<(Vec<u8>, bool)>", || {
+        let r: Result<Vec<(Vec<u8>, bool)>, _> = a.query_all("data($t, $u) <- time($t, $u)");
         r.is_ok()
     });
     cx.guard("Authorizer::authorize_with_limits", || a.authorize_with_limits(SMALL.to_lib()).is_ok());
@@ -1167,34 +1190,135 @@ impl C09Engine {
             }
             Attack::Source { entry, kind, n, m } => {
                 cx.stats.bump("fault.datalog_source");
-                let base = match kind % 6 {
+                let base = match kind % 7 {
                     0 => run.slots[0].ghost[0].ast.source(),
                     1 => run.scn.verifiers[0].authorizer.source(),
                     2 => format!("check if {}1{};", "(".repeat(*n), ")".repeat(*n)),
                     3 => format!("check if {}true;", "!".repeat(*n)),
                     4 => format!("check if 1{} == 1;", " + 1".repeat(*n)),
-                    _ => format!("f({}1{});", "[".repeat(*n), "]".repeat(*n)),
+                    5 => format!("f({}1{});", "[".repeat(*n), "]".repeat(*n)),
+                    // `{parameter}` placeholders in every position the grammar allows, for the
+                    // item kind the entry point expects (n selects the text)
+                    _ => {
+                        let texts: &[&str] = match entry % 6 {
+                            0 => &[
+                                "v(1); r($x) <- v($x), [1, {p}].contains($x); check if v({q});",
+                                "f({p});",
+                                "r({p}) <- v($x); v(1);",
+                                "v(1); check if v($x) trusting {k};",
+                                "v(1); check if v($x), $x == {p};",
+                                "f([{p}]); g({\"a\": {p}}); h({{p}: 1});",
+                            ],
+                            1 => &[
+                                "v(1); r($x) <- v($x), [1, {p}].contains($x); allow if true;",
+                                "v(1); allow if v($x), $x == {p};",
+                                "deny if {p}; allow if true;",
+                                "v(1); r([{p}]) <- v($x); allow if r($y);",
+                                "v(1); allow if v($x) trusting {k};",
+                                "v([2]); r($x) <- v($x), $x == [{p}]; allow if r($y);",
+                            ],
+                            2 => &["f({p})", "f([{p}])", "f({\"a\": {p}})", "f({{p}: 1})", "f({p}, {p})"],
+                            3 => &["a($x) <- b($x), $x == {p}", "a([{p}]) <- b($x)", "a($x) <- b($x, [{p}])", "a($x) <- b($x) trusting {k}", "a({p}) <- b({p})"],
+                            4 => &["check if b($x), $x == {p}", "check if b({p})", "check if [1, {p}].contains(1)", "check all b($x), {p}", "reject if b($x) trusting {k}"],
+                            _ => &["allow if b($x), $x == {p}", "deny if {p}", "allow if b([{p}])", "allow if true trusting {k}"],
+                        };
+                        texts[*n % texts.len()].to_string()
+                    }
                 };
                 let text = String::from_utf8_lossy(&apply_bytes(m, base.as_bytes())).to_string();
-                let text = if kind % 6 >= 2 && matches!(m, ByteMut::Empty) { base } else { text };
+                let text = if kind % 7 >= 2 && matches!(m, ByteMut::Empty) { base } else { text };
+                let kp = KeySpec { alg: Alg::Ed25519, seed: 77 }.keypair();
+                let next = KeySpec { alg: Alg::Ed25519, seed: 78 }.keypair();
+                // parameters given a value (every name the texts above use) or left unset
+                let mut params: std::collections::HashMap<String, biscuit_auth::builder::Term> = std::collections::HashMap::new();
+                let mut scope_params: std::collections::HashMap<String, PublicKey> = std::collections::HashMap::new();
+                // for the parameter texts, n also selects how the parameters are given values:
+                // not at all, an integer, a boolean
+                let mode = (n / 6) % 3;
+                let bound = kind % 7 == 6 && mode > 0;
+                if bound {
+                    // an integer fits everywhere; a boolean cannot be a map key
+                    let value = if mode == 2 { biscuit_auth::builder::Term::Bool(true) } else { biscuit_auth::builder::Term::Integer(2) };
+                    params.insert("p".to_string(), value);
+                    params.insert("q".to_string(), biscuit_auth::builder::Term::Integer(1));
+                    scope_params.insert("k".to_string(), kp.public());
+                }
+                // whatever the entry point returns, every operation on it answers too
+                let use_block = |cx: &mut Ctx, bb: BlockBuilder| {
+                    cx.guard("BlockBuilder::to_string (from source)", || bb.to_string().len());
+                    let built = cx.guard("BiscuitBuilder::build (from source)", || {
+                        biscuit_auth::builder::BiscuitBuilder::new().merge(bb.clone()).build_with_key_pair(&kp, biscuit_auth::datalog::SymbolTable::new(), &next)
+                    });
+                    if let Some(Ok(b)) = built {
+                        sweep_biscuit(cx, &b);
+                        cx.guard("Biscuit::append (from source)", || b.append_with_keypair(&next, bb.clone()).map(|t| t.print().len()).is_ok());
+                    }
+                };
                 match entry % 6 {
                     0 => {
-                        cx.guard("BlockBuilder::code", || BlockBuilder::new().code(&text).is_ok());
+                        let r = cx.guard(if bound { "BlockBuilder::code_with_params" } else { "BlockBuilder::code" }, || {
+                            if bound {
+                                BlockBuilder::new().code_with_params(&text, params.clone(), scope_params.clone())
+                            } else {
+                                BlockBuilder::new().code(&text)
+                            }
+                        });
+                        if let Some(Ok(bb)) = r {
+                            use_block(cx, bb);
+                        }
                     }
                     1 => {
-                        cx.guard("AuthorizerBuilder::code", || AuthorizerBuilder::new().code(&text).is_ok());
+                        let r = cx.guard(if bound { "AuthorizerBuilder::code_with_params" } else { "AuthorizerBuilder::code" }, || {
+                            if bound {
+                                AuthorizerBuilder::new().code_with_params(&text, params.clone(), scope_params.clone())
+                            } else {
+                                AuthorizerBuilder::new().code(&text)
+                            }
+                        });
+                        if let Some(Ok(ab)) = r {
+                            let ab = ab.limits(SMALL.to_lib());
+                            cx.guard("AuthorizerBuilder::dump_code (from source)", || ab.dump_code().len());
+                            cx.guard("AuthorizerBuilder::to_raw_snapshot (from source)", || ab.to_raw_snapshot().is_ok());
+                            install_clock();
+                            if let Some(Ok(mut a)) = cx.guard("AuthorizerBuilder::build_unauthenticated (from source)", || ab.clone().build_unauthenticated()) {
+                                sweep_authorizer(cx, &mut a, 0);
+                            }
+                        }
                     }
                     2 => {
-                        cx.guard("builder::Fact::try_from", || biscuit_auth::builder::Fact::try_from(text.as_str()).is_ok());
+                        if let Some(Ok(f)) = cx.guard("builder::Fact::try_from", || biscuit_auth::builder::Fact::try_from(text.as_str())) {
+                            cx.guard("builder::Fact::to_string", || f.to_string().len());
+                            if let Some(Ok(bb)) = cx.guard("BlockBuilder::fact (from source)", || BlockBuilder::new().fact(f.clone())) {
+                                use_block(cx, bb);
+                            }
+                        }
                     }
                     3 => {
-                        cx.guard("builder::Rule::try_from", || biscuit_auth::builder::Rule::try_from(text.as_str()).is_ok());
+                        if let Some(Ok(r)) = cx.guard("builder::Rule::try_from", || biscuit_auth::builder::Rule::try_from(text.as_str())) {
+                            cx.guard("builder::Rule::to_string", || r.to_string().len());
+                            if let Some(Ok(bb)) = cx.guard("BlockBuilder::rule (from source)", || BlockBuilder::new().rule(r.clone())) {
+                                use_block(cx, bb);
+                            }
+                        }
                     }
                     4 => {
-                        cx.guard("builder::Check::try_from", || biscuit_auth::builder::Check::try_from(text.as_str()).is_ok());
+                        if let Some(Ok(c)) = cx.guard("builder::Check::try_from", || biscuit_auth::builder::Check::try_from(text.as_str())) {
+                            cx.guard("builder::Check::to_string", || c.to_string().len());
+                            if let Some(Ok(bb)) = cx.guard("BlockBuilder::check (from source)", || BlockBuilder::new().check(c.clone())) {
+                                use_block(cx, bb);
+                            }
+                        }
                     }
                     _ => {
-                        cx.guard("builder::Policy::try_from", || biscuit_auth::builder::Policy::try_from(text.as_str()).is_ok());
+                        if let Some(Ok(p)) = cx.guard("builder::Policy::try_from", || biscuit_auth::builder::Policy::try_from(text.as_str())) {
+                            cx.guard("builder::Policy::to_string", || p.to_string().len());
+                            if let Some(Ok(ab)) = cx.guard("AuthorizerBuilder::policy (from source)", || AuthorizerBuilder::new().policy(p.clone())) {
+                                install_clock();
+                                if let Some(Ok(mut a)) = cx.guard("AuthorizerBuilder::build_unauthenticated (from source)", || ab.limits(SMALL.to_lib()).build_unauthenticated()) {
+                                    sweep_authorizer(cx, &mut a, 0);
+                                }
+                            }
+                        }
                     }
                 }
             }
@@ -1267,9 +1391,9 @@ impl Engine for C09Engine {
                 Attack::Source { entry, kind, n, m } => format!(
                     "Source(entry={},shape={},n={},mutation={})",
                     ["BlockBuilder::code", "AuthorizerBuilder::code", "Fact::try_from", "Rule::try_from", "Check::try_from", "Policy::try_from"][(*entry % 6) as usize],
-                    ["block-source", "authorizer-source", "nested-parentheses", "negation-chain", "addition-chain", "nested-arrays"][(*kind % 6) as usize],
+                    ["block-source", "authorizer-source", "nested-parentheses", "negation-chain", "addition-chain", "nested-arrays", "parameters"][(*kind % 7) as usize],
                     n,
-                    if matches!(m, ByteMut::Empty) && kind % 6 >= 2 { "none".to_string() } else { format!("{m:?}") }
+                    if matches!(m, ByteMut::Empty) && kind % 7 >= 2 { "none".to_string() } else { format!("{m:?}") }
                 ),
                 other => {
                     let s = format!("{other:?}");
@@ -1304,12 +1428,15 @@ impl Engine for C09Engine {
                 8 => Attack::SnapshotStructured { target, m: gen_snapmut(&mut rng) },
                 9 => Attack::PoliciesBytes { m: gen_bytemut(&mut rng) },
                 10 => Attack::KeyMaterial { form: rng.below(8) as u8, alg: if rng.chance(1, 2) { Alg::P256 } else { Alg::Ed25519 }, m: gen_bytemut(&mut rng) },
-                11 => Attack::Source {
-                    entry: rng.below(6) as u8,
-                    kind: rng.below(6) as u8,
-                    n: *rng.pick(&[1usize, 10, 100, 1000, 20_000]),
-                    m: if rng.chance(1, 2) { ByteMut::Empty } else { gen_bytemut(&mut rng) },
-                },
+                11 => {
+                    let kind = rng.below(7) as u8;
+                    Attack::Source {
+                        entry: rng.below(6) as u8,
+                        kind,
+                        n: if kind == 6 { rng.below(18) } else { *rng.pick(&[1usize, 10, 100, 1000, 20_000]) },
+                        m: if rng.chance(1, 2) { ByteMut::Empty } else { gen_bytemut(&mut rng) },
+                    }
+                }
                 _ => Attack::Pristine { target },
             };
             attacks.push(a);
